@@ -44,6 +44,7 @@ DECIDING = {
     "wrong_class_rejections": "wrong-class events that must raise TypeError",
     "subclass_events_dispatched": "events of a subclass of the declared class (must be accepted)",
     "unbound_uses": "class-level uses that must raise UnboundSignal",
+    "successors_at_a_dead_owners_address": "a new owner created at the address of a collected one used the same signal first",
     "owners_collected": "owners whose weak reference must die after the last strong reference is dropped",
     "copied_owners": "copy.copy() of an owner after its signals were bound",
     "super_access_first": "base declaration of an overridden signal reached first through super()",
@@ -221,19 +222,31 @@ async def scenario(case: dict[str, Any], out: dict[str, Any]) -> None:
             bad("channel-wrong-class", f"an event of a subclass of the declared event class was rejected on {k}: {describe_exc(e)}")
         except Exception as e:
             bad("channel-dispatch-raised", f"dispatching a subclass event on {k} raised {describe_exc(e)}")
-    # ---- wrong class
-    if len(evs) >= 2:
-        for k in list(bound)[:3]:
-            wrong = next(e for e in evs if not issubclass(e, attr_ev[k[1]]) and e is not attr_ev[k[1]])
+    # ---- wrong class: another declared event class, the Event base class itself, an unrelated class that merely carries the
+    # same module and qualified name as the declared one (two classes made by one class factory), and non-events
+    from asphalt.core import Event as _Event
+
+    for k in list(bound)[:3]:
+        declared = attr_ev[k[1]]
+        namesake = type(declared.__name__, (_Event,), {"__module__": declared.__module__, "__init__": lambda self, n=0: None})
+        namesake.__qualname__ = declared.__qualname__
+        wrongs: list[Any] = [("namesake of the declared class", lambda: namesake(0)), ("the Event base class", lambda: _Event()),
+                             ("a str", lambda: "event"), ("None", lambda: None)]
+        other = next((e for e in evs if not issubclass(e, declared) and e is not declared), None)
+        if other is not None:
+            wrongs.append((f"class {other.__name__}", lambda other=other: other(0)))
+        for what, make in wrongs:
+            if what == "the Event base class" and declared is _Event:
+                continue
             inc("wrong_class_rejections")
             try:
-                bound[k].dispatch(wrong(0))
+                bound[k].dispatch(make())
             except TypeError:
                 pass
             except Exception as e:
-                bad("channel-wrong-class", f"wrong-class event on {k} raised {describe_exc(e)} instead of TypeError")
+                bad("channel-wrong-class", f"wrong-class event ({what}) on {k} raised {describe_exc(e)} instead of TypeError")
             else:
-                bad("channel-wrong-class", f"event of class {wrong.__name__} was accepted on {k} declared for {attr_ev[k[1]].__name__}")
+                bad("channel-wrong-class", f"an event that is {what} was accepted on {k} declared for {declared.__name__}")
     # ---- class-level use
     for a in list(attr_ev)[:2]:
         decl = getattr(cls, a)
@@ -297,6 +310,44 @@ async def scenario(case: dict[str, Any], out: dict[str, Any]) -> None:
         if alive:
             bad("channel-keeps-owner-alive", "owner instance still alive after the last strong reference was dropped "
                                              f"(its {len(held)} bound signal(s) are still referenced)")
+        del held
+        verdict, detail = successor_check(cls, kind, list(attr_ev), attr_ev)
+        if verdict == "no-reuse":
+            inc("successor_address_not_reused")
+        else:
+            inc("successors_at_a_dead_owners_address")
+            if verdict != "ok":
+                bad("channel-shared[successor]" if verdict == "shared" else "channel-source", detail)
+
+
+def successor_check(cls: Any, kind: str, names: list[str], attr_ev: dict[str, Any]) -> tuple[str, str]:
+    """an owner dies while its bound signals are still referenced; the next owner created lands at the very same address and
+    uses the same signal first thing: it must get a channel of its own.  Returns (verdict, detail); verdict 'no-reuse' when the
+    allocator did not hand the address out again (nothing decided)."""
+    inst = make_instance(cls, kind, 98)
+    addr = id(inst)
+    held = {a: getattr(inst, a) for a in names}
+    del inst
+    gc.collect()
+    new = None
+    spare = []
+    for _ in range(30):
+        cand = make_instance(cls, kind, 97)
+        if id(cand) == addr:
+            new = cand
+            break
+        spare.append(cand)
+    if new is None:
+        return "no-reuse", ""
+    for a in names:
+        nb = getattr(new, a)
+        if nb is held[a]:
+            return "shared", f"a new owner allocated at the address of a dead one got the dead owner's bound signal for {a}"
+        ev = attr_ev[a](0)
+        nb.dispatch(ev)
+        if ev.source is not new:
+            return "source", f"an event dispatched on {a} of a new owner allocated at the address of a dead one carries source {ev.source!r}"
+    return "ok", ""
 
 
 def gc_check(cls: Any, kind: str, names: list[str]) -> tuple[bool, list[Any]]:
